@@ -23,14 +23,16 @@ NASTY = [b"a b", b"q\"uote", b"back\\slash", b"tab\there", b"\xff\xfe\xfd", b"ca
          b"^{tree}", b"a:b", b"..", b"@{0}", b"\x7f"]
 
 
-def gen_named(rng, lf_ok=True):
+def gen_named(rng, lf_ok=True, force=None):
     s = S.Scenario()
     names = rng.sample(NASTY, rng.randrange(2, 6))
+    if force is not None and force not in names:
+        names.append(force)
     if not lf_ok:
         names = [n for n in names if b"\n" not in n] or [b"plain"]
     blobs = [s.add({"kind": "blob", "data": bytes([65 + i]) * rng.choice([10, 2000, 50000])}) for i in range(3)]
     huge = s.add({"kind": "blob", "data": b"H" * 70000})
-    star = rng.choice(names)           # the biggest blob sits under one of the hostile names, so that it is cited
+    star = force if force is not None else rng.choice(names)   # the biggest blob sits under one of the hostile names, so that it is cited
     sub = s.add({"kind": "tree", "entries": sorted([(0o100644, n, huge if n == star else rng.choice(blobs)) for n in names], key=lambda e: e[1])})
     top_entries = [(0o40000, rng.choice([b"dir", b"d i r", b"d\xffr"]), sub), (0o100644, b"zfile", blobs[0])]
     top = s.add({"kind": "tree", "entries": sorted(top_entries, key=lambda e: e[1] + (b"/" if e[0] == 0o40000 else b""))})
@@ -128,7 +130,7 @@ def run(ctx):
         keys1x = set(json.loads(outX1)) - {"reference_groups"}
         keys2x = {k for k in json.loads(outX2) if not k.startswith("refgroup.")}
         for it in range(40 if quick else 600):
-            sc, names = gen_named(rng)
+            sc, names = gen_named(rng, force=b"new\nline" if it == 1 else None)   # the known finding is exhibited on every run
             has_lf = any(b"\n" in n for n in names)
             lf_cases += has_lf
             cfg = []
@@ -182,9 +184,19 @@ def run(ctx):
                             res.violations.append(vlib.Violation("JSON key set differs from the plain-name twin", inp,
                                                                  expected=sorted(exp - ks), observed=sorted(ks - exp)))
                     else:
-                        for pr in check_table(out):
-                            res.violations.append(vlib.Violation("table not well-formed: " + pr, inp, observed=out[:1500].decode("latin1"),
-                                                                 cls="name-contains-LF" if has_lf and ns == "full" else None))
+                        probs = check_table(out)
+                        if probs:
+                            # narrow known finding: the table is well-formed once every LF inside a name is written as \\n,
+                            # i.e. every problem is caused by an LF copied verbatim from a name
+                            lfnames = [n for n in names if b"\n" in n] + [sp_.encode() for sp_, _ in explicit if "\n" in sp_] + \
+                                      [v.encode() for k_, v in cfg if "\n" in v]
+                            repaired = out
+                            for n in sorted(lfnames, key=len, reverse=True):
+                                repaired = repaired.replace(n, n.replace(b"\n", b"\\n"))
+                            lf_only = bool(lfnames) and not check_table(repaired)
+                            for pr in probs:
+                                res.violations.append(vlib.Violation("table not well-formed: " + pr, inp, observed=out[:1500].decode("latin1"),
+                                                                     cls="name-contains-LF" if lf_only else None))
     finally:
         eng.close()
     res.coverage_extra["input_distribution"] = {"cases_with_LF_in_a_name": lf_cases}
